@@ -969,6 +969,19 @@ fn serde_sweep(rng: &mut Rng, n: usize) -> Vec<Value> {
     out.push(sweep::<SegmentRecord<GcPcSaftRecord>>("SegmentRecord<GcPcSaftRecord>", n, rng, &|r| {
         json!({"identifier": seg_name(1 + r.below(6) as u32), "molarweight": val(r, 0.2), "model_record": gen_obj(r, &f, &[])})
     }));
+    // chemical records: bond lists of branched / cyclic molecules, written in random direction, or no bond list
+    out.push(sweep::<ChemicalRecord>("ChemicalRecord", n, rng, &|r| {
+        let len = 1 + r.below(8);
+        let mut o = json!({"identifier": Id::random(r, 5, 0.6).json(), "segments": (0..len).map(|_| seg_name(1 + r.below(6) as u32)).collect::<Vec<_>>()});
+        if r.f64() < 0.7 {
+            let mut b: Vec<[usize; 2]> = (1..len).map(|i| { let j = r.below(i); if r.f64() < 0.5 { [i, j] } else { [j, i] } }).collect();
+            if len > 2 && r.f64() < 0.3 {
+                b.push([0, len - 1]);
+            }
+            o["bonds"] = json!(b);
+        }
+        o
+    }));
     let f = [("k_ij", O), ("kappa_ab", O), ("epsilon_k_ab", O)];
     out.push(sweep::<PureRecord<PcSaftRecord>>("PureRecord<PcSaftRecord>", n, rng, &|r| {
         let mut o = json!({"identifier": Id::random(r, 5, 0.6).json(), "model_record": {"m": val(r, 0.1), "sigma": val(r, 0.1), "epsilon_k": val(r, 0.1)}});
